@@ -84,11 +84,18 @@ func genDL(t *rapid.T) DLCase {
 	n := rapid.IntRange(0, 3).Draw(t, "nNuisance")
 	for i := 0; i < n; i++ {
 		var b speer.Behaviour
-		switch rapid.IntRange(0, 8).Draw(t, "nk") {
+		switch rapid.IntRange(0, 9).Draw(t, "nk") {
 		case 7:
 			// serves a few blocks, chokes, unchokes at once, and never answers again (connected and unchoking)
 			b.ChokeAfter, b.ChokeMs = rapid.IntRange(1, 3).Draw(t, "ca2"), rapid.SampledFrom([]int{1, 20}).Draw(t, "cms2")
 			b.StallAfter, b.StallMs = b.ChokeAfter, 120000
+		case 9:
+			// never unchokes but grants a few pieces as allowed-fast; serves them, or turns some of the requests down once
+			b.NeverUnchoke = true
+			for k := rapid.IntRange(1, 4).Draw(t, "naf"); k > 0; k-- {
+				b.AllowedFast = append(b.AllowedFast, rapid.IntRange(0, c.L.NumPieces()-1).Draw(t, "af"))
+			}
+			b.RejectEvery = rapid.IntRange(0, 2).Draw(t, "afre")
 		case 8:
 			// unchoking fast peer that turns down some requests once (a reject that crossed its own unchoke)
 			b.RejectEvery = rapid.IntRange(1, 4).Draw(t, "re")
@@ -262,7 +269,7 @@ func runDL(c DLCase) core.Result {
 				panic(err)
 			}
 			defer ln.Close()
-			listeners = append(listeners, lst{ln, b, mkOpts(10+i, i%3 != 0 || b.RejectEvery > 0, mseOpts(1, false))})
+			listeners = append(listeners, lst{ln, b, mkOpts(10+i, i%3 != 0 || b.RejectEvery > 0 || len(b.AllowedFast) > 0, mseOpts(1, false))})
 			peerAddrs = append(peerAddrs, ln.Addr().String())
 		}
 	}
@@ -371,7 +378,7 @@ func runDL(c DLCase) core.Result {
 			if c.Enc == 3 || c.Enc == 4 {
 				m = mseOpts(2, true)
 			}
-			dial(10+i, b, i%3 != 0 || b.RejectEvery > 0, m)
+			dial(10+i, b, i%3 != 0 || b.RejectEvery > 0 || len(b.AllowedFast) > 0, m)
 		}
 	}
 
